@@ -222,6 +222,13 @@ def run(report: Report, tier, seed):
         p0 = b["problems"][0]
         report.violation(Violation(key=f"ctor:{b['name']}:{p0['vector']}", what=f"{b['name']} accepts argument types {p0['vector']} ({p0['mode']}, v{p0['version']}) and the emitted TEAL has: {p0['what']}"[:400],
                                    replay={"input": {"ctor": b["name"]}, "teal": p0["teal"]}, confirmed_native=True))
+    # the recorded optimiser finding O3.4, shown on a fixed program and attributed exactly (disappears when the multiply-stored slot is withheld)
+    from . import opt_native
+    w34 = opt_native.o34_witness("stack")
+    report.bounded.append(Bounded(function="slot optimiser on a slot that is stored twice and loaded once right after a store", contract="nothing but the results is on the stack when control leaves",
+                                  bound="one fixed program (the example of known_findings O3.4)", cases=1, distinct_nontrivial=1, failures=1 if w34 else 0))
+    if w34:
+        report.violation(Violation(key="O3.4:store-elsewhere+adjacent-store-load", what=w34["what"][:400], replay=w34, confirmed_native=True))
     report.extra["explanation"] = "E: type lattice and operator signature tables; P: fragment stack-delta clauses (fragcheck); B: abstract interpretation of generated programs"
     report.settle_refuted(lambda fn, obs: fails[0] if fails else None)
     if known:
@@ -243,6 +250,11 @@ def run(report: Report, tier, seed):
 def replay(data):
     r = data.get("replay") or {}
     nat = r.get("native") or r
+    if (nat.get("input") or {}).get("o34"):
+        from . import opt_native
+        w = opt_native.o34_witness(nat["input"]["o34"])
+        print(w["what"] if w else "not reproduced")
+        return 1 if w else 0
     if (nat.get("input") or {}).get("typesink"):
         from . import typesinks
         out = typesinks.case(tuple(nat["input"]["typesink"]))
